@@ -23,7 +23,7 @@ EXTENDS Naturals, Integers, Sequences, FiniteSets, TLC, Json
 
 CONSTANTS MaxLen,                 \* streams of length 0..MaxLen
           Loops,                  \* subset of AllLoops to enumerate
-          Dev_AttrSkipNoEOF       \* TRUE: shipped parseattr (no EOF test); FALSE: what termination requires
+          Dev_AttrSkipNoEOF       \* TRUE: parseattr before /repo f3e22e6 (no EOF test; only MC_Skip_live.cfg, the vacuity guard); FALSE: what termination requires
 
 AllLoops == {"attr", "gnuattr", "margs", "pragma", "define", "cppc", "cc", "str"}
 ASSUME Loops \subseteq AllLoops
